@@ -54,6 +54,11 @@ CHECKS = {
          "For every model of 3 (thorough also 4) endpoints in several application distributions, every start endpoint and every option (plain, group-by attribute, each other endpoint blackboxed) the real GenerateSequenceDiag must return a diagram whose participants are declared exactly once, whose activations balance and never go negative, in which a participant sends a call only while active and every block is closed, and whose call arrows equal the reference walk (source order, a call in progress is shown but not expanded, a blackboxed endpoint is not expanded). 7.4 million diagrams in the quick tier.",
          "plain applications only (no ~human/~cron), simple endpoints, existing targets",
          "DESIGN.md §4 C13"),
+ "C14": ("exploration",
+         "bounded-exhaustive enumeration of call multigraphs x project selections x exclude/passthrough subsets x views through the real GenerateIntegrations / IntsBuilder; soundness and completeness of arrows against the call multigraph",
+         "All 64 call graphs on 3 applications (thorough: all 4096 on 4) with calls rotating through every statement kind, each with every human mark, every listed subset, every exclude subset and every passthrough subset (cyclic pass-through chains included), in plain, clustered and EPA views: generation must terminate; every DepsOut entry and every drawn arrow must correspond to a call and touch no excluded application; every call from a listed application to a different, non-excluded, non-human application through a non-hidden endpoint must be drawn.",
+         "arrows read from component-diagram text and IntsBuilder.DepsOut; EPA view checked for termination and DepsOut only",
+         "DESIGN.md §4 C14"),
  "C17": ("exploration",
          "bounded-exhaustive model set (corpus, generated families, return-payload sweep, complete deep statement trees) through the real relmod.Normalize, compared row-for-row (as multisets) with an independent census of the module; repeated run compared",
          "For every model the relational schema must either be refused with an error or contain exactly the census rows: applications, mixins, endpoints, events, parameters (index, location, type, optionality), statements with their position path, types, table keys, fields (type, optionality, constraints), enums, aliases, views, annotations and tags of every element; a second run must give the same relations.",
